@@ -82,6 +82,7 @@ type Req struct {
 	HasSubs     []bool   `json:"hs,omitempty"` // false: Subscription entry without a path
 	Peer        bool     `json:"peer"`
 	Stats       bool     `json:"stats,omitempty"`
+	Setup       []Noti   `json:"setup,omitempty"` // notifications ingested (and relayed to Server.Update) before the request
 	Targets     []string `json:"targets,omitempty"`
 }
 
